@@ -440,6 +440,30 @@ def r6_weights_in_one_unit(ctx: Context) -> None:
                       f"the weight function reads {raw or sorted(units)}: EventTime values are compared in their own units, so with runtimes "
                       "given in different units the longest path (and the critical-path runtime / deadline built on it) is not the maximum")
     ctx.floor("C17.R6", "weight functions handed to get_longest_path", n, 4)
+    # the runtime that is summed along the returned path is the one the path was chosen by
+    n2 = 0
+    for m in ctx.repo.program_modules():
+        for c in ast.walk(m.tree):
+            if not (isinstance(c, ast.Call) and call_name(c) == "get_longest_path"):
+                continue
+            comp = parent(c)
+            while comp is not None and not isinstance(comp, (ast.GeneratorExp, ast.ListComp, ast.FunctionDef)):
+                comp = parent(comp)
+            if not isinstance(comp, (ast.GeneratorExp, ast.ListComp)) or not any(c is x for g_ in comp.generators for x in ast.walk(g_.iter)):
+                continue
+            w = next((k.value for k in c.keywords if k.arg == "weights"), c.args[0] if c.args else None)
+            if not isinstance(w, ast.Lambda):
+                continue
+            sel = lambda e: sorted({call_name(x) for x in ast.walk(e) if isinstance(x, ast.Call) and (call_name(x) or "").startswith("get_") and "strategy" in (call_name(x) or "")}
+                                   | {x.attr for x in ast.walk(e) if isinstance(x, ast.Attribute) and x.attr in ("slowest_execution_strategy", "fastest_execution_strategy")})  # noqa: E731
+            s_sum, s_w = sel(comp.elt), sel(w.body)
+            if not s_sum or not s_w:
+                continue
+            n2 += 1
+            ctx.check(set(s_w) <= set(s_sum), "C17.R6", f"{qualname(c)}|path chosen and summed by the same strategy runtime", loc(c), f"{s_w}",
+                      f"the longest path is chosen by {s_w} but its length is summed with {s_sum}: the reported critical-path runtime is the weight "
+                      "of some source-to-sink path, not the maximum")
+    ctx.floor("C17.R6", "critical-path sums over get_longest_path", n2, 2)
 
 
 MAPS = ("_graph", "_parent_graph")
